@@ -180,7 +180,7 @@ Section Reals.
 
   Lemma not_precise_R pe : 0 < alpha -> not_precise R Rops alpha allowed pe = false <-> Rabs (pe - alpha) <= allowed * alpha.
   Proof.
-    intros Ha. cbn. rewrite Rltb_false. split; intros H.
+    intros Ha. unfold not_precise. cbn [ltb absf sub div Rops]. rewrite Rltb_false. split; intros H.
     - apply (Rmult_le_compat_r alpha) in H; [|lra]. unfold Rdiv in H. rewrite Rmult_assoc, Rinv_l, Rmult_1_r in H by lra. exact H.
     - apply (Rmult_le_reg_r alpha); [lra|]. unfold Rdiv. rewrite Rmult_assoc, Rinv_l, Rmult_1_r by lra. exact H.
   Qed.
@@ -192,43 +192,128 @@ Section Reals.
   Lemma dist_inv_start : dist_inv (c02 Rops) (c01 Rops).
   Proof. unfold dist_inv. cbn. lra. Qed.
 
-  Let r := search_ray R Rops m sample alpha allowed xm ym theta.
+  Notation ray_r := (search_ray R Rops m sample alpha allowed xm ym theta).
+  Lemma search_ray_eq : ray_r =
+    search R Rops max_iterations m sample alpha allowed (unit_vec R Rops theta) (max_distance R Rops xm ym)
+           (c02 Rops) (c01 Rops) (zero Rops) None [].
+  Proof. reflexivity. Qed.
+  Lemma fuel_pos : (1 <= max_iterations)%nat.
+  Proof. unfold max_iterations. lia. Qed.
 
   (* the returned vector lies on the ray of angle theta at a distance > 0.1 * max_distance, and the returned pe is the
      exceedance fraction at that very vector *)
-  Lemma ray_point_spec v : r_vec r = Some v ->
+  Lemma ray_point_spec v : r_vec ray_r = Some v ->
     exists rd, / 10 < rd /\
       v = (cos (theta / 180 * PI) * (rd * max_distance R Rops xm ym), sin (theta / 180 * PI) * (rd * max_distance R Rops xm ym)) /\
-      r_pe r = INR (count R Rops m v sample) / INR (length sample).
+      r_pe ray_r = INR (count R Rops m v sample) / INR (length sample).
   Proof.
-    intros Hv.
-    pose proof (search_inv R Rops m sample alpha allowed (unit_vec R Rops theta) (max_distance R Rops xm ym) dist_inv
-                  (fun rd rs pe' H => dist_inv_step rd rs pe' H) max_iterations (c02 Rops) (c01 Rops) (zero Rops) None []) as H.
-    cbv zeta in H. fold (search_ray R Rops m sample alpha allowed xm ym theta) in H. fold r in H.
-    destruct (H ltac:(unfold max_iterations; lia) dist_inv_start ltac:(intros v0 Hv0; discriminate) v Hv) as [rd0 [rs0 [[I1 I2] [E1 E2]]]].
+    rewrite search_ray_eq. intros Hv.
+    assert (Hg : good R Rops m sample (unit_vec R Rops theta) (max_distance R Rops xm ym) dist_inv None (zero Rops))
+      by (intros v0 Hv0; discriminate).
+    destruct (search_inv R Rops m sample alpha allowed (unit_vec R Rops theta) (max_distance R Rops xm ym) dist_inv
+                  (fun rd rs pe' H => dist_inv_step rd rs pe' H) max_iterations (c02 Rops) (c01 Rops) (zero Rops) None []
+                  fuel_pos dist_inv_start Hg v Hv) as [rd0 [rs0 [[I1 I2] [E1 E2]]]].
     exists rd0. split; [lra|]. split; [exact E1|exact E2].
   Qed.
 
-  Lemma ray_within_tolerance v : 0 < alpha -> r_warned r = false -> r_vec r = Some v ->
+  Lemma ray_within_tolerance v : 0 < alpha -> r_warned ray_r = false -> r_vec ray_r = Some v ->
     Rabs (INR (count R Rops m v sample) / INR (length sample) - alpha) <= allowed * alpha.
   Proof.
     intros Ha Hw Hv. destruct (ray_point_spec v Hv) as [rd [_ [_ E]]]. rewrite <- E.
-    apply not_precise_R; [exact Ha|].
-    apply (search_not_warned R Rops m sample alpha allowed (unit_vec R Rops theta) (max_distance R Rops xm ym) max_iterations
-             (c02 Rops) (c01 Rops) (zero Rops) None []); [right; unfold max_iterations; lia|exact Hw].
+    apply not_precise_R; [exact Ha|]. rewrite search_ray_eq in *.
+    exact (search_not_warned R Rops m sample alpha allowed (unit_vec R Rops theta) (max_distance R Rops xm ym) max_iterations
+             (c02 Rops) (c01 Rops) (zero Rops) None [] (or_intror fuel_pos) Hw).
+  Qed.
+
+  Lemma start_not_precise : 0 < alpha -> allowed < 1 -> not_precise R Rops alpha allowed (zero Rops) = true.
+  Proof.
+    intros Ha Hal. unfold not_precise. cbn [ltb absf sub div zero Rops]. apply Rltb_true.
+    replace (0 - alpha) with (- alpha) by ring. rewrite Rabs_Ropp, Rabs_right by lra.
+    unfold Rdiv. rewrite Rinv_r by lra. exact Hal.
+  Qed.
+  Lemma start_precise : 0 < alpha -> 1 <= allowed -> not_precise R Rops alpha allowed (zero Rops) = false.
+  Proof.
+    intros Ha Hal. unfold not_precise. cbn [ltb absf sub div zero Rops]. apply Rltb_false.
+    replace (0 - alpha) with (- alpha) by ring. rewrite Rabs_Ropp, Rabs_right by lra.
+    unfold Rdiv. rewrite Rinv_r by lra. exact Hal.
   Qed.
 
   (* allowed_error < 1: the loop body runs at least once, so a vector exists *)
-  Lemma ray_has_vector : 0 < alpha -> allowed < 1 -> r_vec r <> None.
-  Proof.
-    intros Ha Hal. apply search_runs_once. cbn. apply Rltb_true.
-    replace (0 - alpha) with (- alpha) by ring. rewrite Rabs_Ropp, Rabs_right by lra.
-    unfold Rdiv. rewrite Rinv_r by lra. exact Hal.
-  Qed.
-  Lemma ray_no_vector : 0 < alpha -> 1 <= allowed -> r_vec r = None.
-  Proof.
-    intros Ha Hal. apply search_never_runs. cbn. apply Rltb_false.
-    replace (0 - alpha) with (- alpha) by ring. rewrite Rabs_Ropp, Rabs_right by lra.
-    unfold Rdiv. rewrite Rinv_r by lra. exact Hal.
-  Qed.
+  Lemma ray_has_vector : 0 < alpha -> allowed < 1 -> r_vec ray_r <> None.
+  Proof. intros Ha Hal. rewrite search_ray_eq. apply search_runs_once. apply start_not_precise; assumption. Qed.
+  Lemma ray_no_vector : 0 < alpha -> 1 <= allowed -> r_vec ray_r = None.
+  Proof. intros Ha Hal. rewrite search_ray_eq. apply search_never_runs. apply start_precise; assumption. Qed.
 End Reals.
+
+(* ------------------------------------------------------------------ the property clauses, assembled *)
+Section Clauses.
+  Variable T : Type.
+  Variable K : ops T.
+
+  (* any number structure (binary64 included): the returned vector is the ray point of one visited rel_dist and the
+     returned pe is the exceedance fraction counted at that very vector; at most 100 iterations *)
+  Lemma ray_same_iteration m sample alpha allowed xm ym theta v :
+    r_vec (search_ray T K m sample alpha allowed xm ym theta) = Some v ->
+    exists rd, v = point_at T K (unit_vec T K theta) rd (max_distance T K xm ym) /\
+               r_pe (search_ray T K m sample alpha allowed xm ym theta) = pe_of T K (count T K m v sample) (length sample).
+  Proof.
+    unfold search_ray. intros Hv.
+    assert (Hg : good T K m sample (unit_vec T K theta) (max_distance T K xm ym) (fun _ _ => True) None (zero K))
+      by (intros v0 Hv0; discriminate).
+    destruct (search_inv T K m sample alpha allowed (unit_vec T K theta) (max_distance T K xm ym) (fun _ _ => True)
+                (fun _ _ _ _ => Logic.I) max_iterations (c02 K) (c01 K) (zero K) None []
+                (fuel_pos) Logic.I Hg v Hv) as [rd0 [rs0 [_ [E1 E2]]]].
+    exists rd0. split; [exact E1|exact E2].
+  Qed.
+
+  Lemma ray_not_warned_precise m sample alpha allowed xm ym theta :
+    r_warned (search_ray T K m sample alpha allowed xm ym theta) = false ->
+    not_precise T K alpha allowed (r_pe (search_ray T K m sample alpha allowed xm ym theta)) = false.
+  Proof.
+    unfold search_ray. intros Hw.
+    exact (search_not_warned T K m sample alpha allowed (unit_vec T K theta) (max_distance T K xm ym) max_iterations
+             (c02 K) (c01 K) (zero K) None [] (or_intror fuel_pos) Hw).
+  Qed.
+
+  Lemma ray_iterations m sample alpha allowed xm ym theta :
+    (length (r_trace (search_ray T K m sample alpha allowed xm ym theta)) <= 100)%nat.
+  Proof.
+    unfold search_ray.
+    exact (search_trace_length T K m sample alpha allowed (unit_vec T K theta) (max_distance T K xm ym) max_iterations
+             (c02 K) (c01 K) (zero K) None []).
+  Qed.
+
+  Lemma and_contour_closure sample alpha allowed xm ym thetas l :
+    fst (and_contour T K sample alpha allowed xm ym thetas) = Some l ->
+    exists pts, map Some pts = map r_vec (rays T K And sample alpha allowed xm ym thetas) /\
+                l = pts ++ [(zero K, zero K)] /\ length l = S (length thetas).
+  Proof.
+    unfold and_contour. cbn [fst]. intros H. destruct (and_coords_spec T K _ l H) as [pts [H1 [H2 H3]]].
+    exists pts. repeat split; auto. rewrite H3. unfold rays. rewrite map_length. reflexivity.
+  Qed.
+
+  Lemma and_contour_error sample alpha allowed xm ym thetas :
+    fst (and_contour T K sample alpha allowed xm ym thetas) = None <->
+    exists theta, In theta thetas /\ r_vec (search_ray T K And sample alpha allowed xm ym theta) = None.
+  Proof.
+    unfold and_contour. cbn [fst]. rewrite and_coords_error. unfold rays. split.
+    - intros [r [Hin Hr]]. apply in_map_iff in Hin. destruct Hin as [theta [<- Hin]]. exists theta. auto.
+    - intros [theta [Hin Hr]]. exists (search_ray T K And sample alpha allowed xm ym theta). split; auto. apply in_map. exact Hin.
+  Qed.
+
+  Lemma or_contour_closure sample alpha allowed xm ym thetas dflt l :
+    fst (or_contour T K sample alpha allowed xm ym thetas dflt) = Some l ->
+    let xmax := mul K (c11 K) (maxl T K (map fst sample) dflt) in
+    let ymax := mul K (c11 K) (maxl T K (map snd sample) dflt) in
+    exists pts kept first,
+      map Some pts = map r_vec (rays T K Or sample alpha allowed xm ym thetas) /\
+      kept = filter (in_range T K xmax ymax) pts /\ hd_error kept = Some first /\
+      (forall p, In p kept <-> In p pts /\ ltb K (fst p) xmax = true /\ ltb K (snd p) ymax = true) /\
+      l = kept ++ [(zero K, snd (last kept first)); (zero K, zero K); (fst first, zero K)].
+  Proof.
+    unfold or_contour. intros H. cbn [fst] in H.
+    destruct (or_coords_spec T K sample _ dflt l H) as [pts [kept [first [H1 [H2 [H3 H4]]]]]].
+    exists pts, kept, first. split; [exact H1|]. split; [exact H2|]. split; [exact H3|]. split; [|exact H4].
+    intros p. subst kept. apply kept_unaltered.
+  Qed.
+End Clauses.
